@@ -109,6 +109,52 @@ func runC02FreshCache(c *Ctx) {
 
 // ---- C07.TEXTPOS ----
 
+// posObjectWrites: the instructions that write the position object v points to, or let its address go somewhere it can be
+// written from: a store of a whole Pos through v, a store to one of its fields, the address of a field used for anything
+// but a load, and the same inside the functions of the package v is handed to (two levels).
+func posObjectWrites(v ssa.Value, depth int) []ssa.Instruction {
+	var out []ssa.Instruction
+	refs := v.Referrers()
+	if refs == nil {
+		return nil
+	}
+	for _, ref := range *refs {
+		switch r := ref.(type) {
+		case *ssa.Store:
+			if r.Addr == v {
+				out = append(out, r)
+			}
+		case *ssa.FieldAddr:
+			if r.X != v {
+				continue
+			}
+			for _, r2 := range *r.Referrers() {
+				if _, dbg := r2.(*ssa.DebugRef); dbg {
+					continue
+				}
+				if ld, ok := r2.(*ssa.UnOp); ok && ld.Op == token.MUL {
+					continue
+				}
+				out = append(out, r2)
+			}
+		case ssa.CallInstruction:
+			f := staticCallee(r.Common())
+			if f == nil || !inPkgName(f) || f.Blocks == nil || depth >= 2 {
+				continue
+			}
+			args := r.Common().Args
+			for i, a := range args {
+				if a == v && i < len(f.Params) {
+					if len(posObjectWrites(f.Params[i], depth+1)) > 0 {
+						out = append(out, r)
+					}
+				}
+			}
+		}
+	}
+	return out
+}
+
 func runC07TextPos(c *Ctx) {
 	p := c.P
 	occ := map[string]int{}
@@ -122,6 +168,7 @@ func runC07TextPos(c *Ctx) {
 				return
 			}
 			var val, pos ssa.Value
+			var posReads []ssa.Value // s.Pos read back from the node under construction
 			for _, ref := range *al.Referrers() {
 				if fa, ok := ref.(*ssa.FieldAddr); ok {
 					for _, r2 := range *fa.Referrers() {
@@ -133,30 +180,56 @@ func runC07TextPos(c *Ctx) {
 								pos = st.Val
 							}
 						}
+						if ld, ok := r2.(*ssa.UnOp); ok && ld.Op == token.MUL && fieldAddrName(fa) == "String.Pos" {
+							posReads = append(posReads, ld)
+						}
 					}
 				}
 			}
 			k := FuncName(fn) + "|String node"
 			occ[k]++
 			construct := fmt.Sprintf("%s#%d", k, occ[k])
+			// the position: posAt of a node, the object not written between posAt and the end of this function
+			var posNode ssa.Value
+			if call, ok := pos.(*ssa.Call); ok {
+				if f := staticCallee(&call.Call); f != nil && f.Name() == "posAt" && len(call.Call.Args) == 1 {
+					posNode = call.Call.Args[0]
+				}
+			}
+			var writes []ssa.Instruction
+			if posNode != nil {
+				writes = posObjectWrites(pos, 0)
+				for _, rd := range posReads {
+					writes = append(writes, posObjectWrites(rd, 0)...)
+				}
+			}
+			changed := func() string {
+				return fmt.Sprintf("the position object returned by posAt is changed in line %d before or after it is stored in the node: the node's position is no longer where its text begins", p.Fset.Position(writes[0].Pos()).Line)
+			}
 			if s, isConst := constString(val); isConst && s == "" {
-				c.ok(construct, al.Pos(), "the empty string (null node)")
+				// the stand-in for a scalar that was rejected: no text, but diagnostics about the entry are still put at
+				// its position, which therefore has to be that of a node this function was given
+				_, isParam := posNode.(*ssa.Parameter)
+				switch {
+				case !isParam:
+					c.bad(construct, al.Pos(), "the stand-in for a rejected scalar is not positioned at the node that was handed in")
+				case len(writes) > 0:
+					c.bad(construct, al.Pos(), changed())
+				default:
+					c.ok(construct, al.Pos(), "the empty string (stand-in for a rejected scalar) at posAt of the node handed in")
+				}
 				return
 			}
 			vf, vbase := fieldLoad(val)
-			okPos := false
-			if call, ok := pos.(*ssa.Call); ok {
-				if f := staticCallee(&call.Call); f != nil && f.Name() == "posAt" && len(call.Call.Args) == 1 && call.Call.Args[0] == vbase {
-					okPos = true
-				}
-			}
 			switch {
 			case vf != "yaml.Node.Value":
 				c.bad(construct, al.Pos(), "the text stored in the node is "+symName(val)+", not the scalar's text as written: offsets inside it no longer correspond to columns of the source, so diagnostics in it are shifted")
-			case !okPos:
+			case posNode == nil || posNode != vbase:
 				c.bad(construct, al.Pos(), "the position is not that of the node whose text is stored")
+			case len(writes) > 0:
+				c.bad(construct, al.Pos(), changed())
 			default:
-				c.ok(construct, al.Pos(), "Value is the node's text as written and Pos is posAt of the same node")
+				c.ok(construct, al.Pos(), "Value is the node's text as written and Pos is posAt of the same node, unchanged")
 			}
 		})
 	}
@@ -263,7 +336,7 @@ func init() {
 
 func runC07TextFrozen(c *Ctx) {
 	p := c.P
-	n := 0
+	n, rewritten := 0, 0
 	for _, fn := range p.Funcs {
 		eachInstr(fn, func(_ *ssa.BasicBlock, _ int, in ssa.Instruction) {
 			st, ok := in.(*ssa.Store)
@@ -282,11 +355,26 @@ func runC07TextFrozen(c *Ctx) {
 			if _, isAlloc := fa.X.(*ssa.Alloc); isAlloc {
 				return // initialisation of a node being built
 			}
+			rewritten++
 			c.bad(FuncName(fn)+"|"+name+" rewritten", st.Pos(), name+" of an existing scalar node is overwritten: text, quoting and position of a node no longer describe the same piece of source, so positions computed from offsets in the text are wrong")
 		})
+		// the position object a node points to: s.Pos.Col++ moves the node as much as s.Pos = q does
+		eachInstr(fn, func(_ *ssa.BasicBlock, _ int, in ssa.Instruction) {
+			ld, ok := in.(*ssa.UnOp)
+			if !ok || ld.Op != token.MUL {
+				return
+			}
+			if f, _ := fieldLoad(ld); f != "String.Pos" {
+				return
+			}
+			for _, w := range posObjectWrites(ld, 0) {
+				rewritten++
+				c.bad(FuncName(fn)+"|position object of String.Pos rewritten", w.Pos(), "the position object an existing scalar node points to is written: text, quoting and position of a node no longer describe the same piece of source, so positions computed from offsets in the text are wrong")
+			}
+		})
 	}
-	if n > 0 {
-		c.ok("String|fields only set at construction", token.NoPos, fmt.Sprintf("%d stores, all into nodes under construction", n))
+	if n > 0 && rewritten == 0 {
+		c.ok("String|fields only set at construction", token.NoPos, fmt.Sprintf("%d stores, all into nodes under construction; no write through the Pos of a node", n))
 	}
 }
 
